@@ -120,6 +120,8 @@ impl BoxedUint {
 
     /// Perform checked division, returning a [`CtOption`] which `is_some`
     /// only if the rhs != 0
+    ///
+    /// Panics if `rhs` does not have the same precision as `self`.
     pub fn checked_div(&self, rhs: &Self) -> CtOption<Self> {
         let is_nz = rhs.is_nonzero();
         let nz = NonZero(Self::ct_select(
